@@ -94,6 +94,13 @@ class NewObject:
         kw = ", ".join(f"{k}={v!r}" for k, v in self._kw.items())
         return f"<new object {self._type_hint!r} ({kw})>"
 
+    def __eq__(self, other: object) -> bool:
+        if not isinstance(other, NewObject):
+            return NotImplemented
+        return self._type_hint == other._type_hint and self._kw == other._kw
+
+    __hash__ = None  # type: ignore[assignment]
+
 
 class Accessor(t.Generic[T_co], metaclass=abc.ABCMeta):
     """Super class for all Accessor types."""
